@@ -711,7 +711,8 @@ func protocolFacts() {
 	iStat := strings.Index(apb, "fc.status = proto.ServingStatus_FOLLOWER")
 	iDup := strings.Index(apb, "if req.Entry.Offset <= fc.lastAppendedOffset {")
 	iApp := strings.Index(apb, "fc.wal.AppendAsync(req.GetEntry())")
-	add("followerAppendChecksTermAlways", "Bool", boolLean(iLock >= 0 && iTerm > iLock && iStat > iTerm && iDup > iStat && iApp > iDup),
+	add("followerAppendChecksTermAlways", "Bool", boolLean(iLock >= 0 && iTerm > iLock && iStat > iTerm && iDup > iStat && iApp > iDup &&
+		strings.Contains(apb, "fc.Lock() defer fc.Unlock() if req.Term != fc.term { return constant.ErrInvalidTerm }")),
 		"server/follower_controller.go: append", "under the controller lock: term check first (in every status), then duplicate suppression by offset, then the WAL append")
 	rs := funcDecl(fc, "followerController", "readSnapshotStream")
 	rsb := ""
